@@ -1720,3 +1720,94 @@ Q(name="e2_poll_transmit_pad_guard_slice", props=["C13"], func=r"connection/mod\
   functions=["Connection::poll_transmit (slice: the padding decision before a packet is finished)"], pre=lambda c: "true", post=pg_post,
   bounds="from an arbitrary state (datagram_start, segment_size, buf_capacity and the flag unconstrained): PacketBuilder::pad_to is called with exactly segment_size, and only when datagram_start + segment_size <= buf_capacity, the budget computed for this datagram (smaller than a segment for loss probes); the locals are identified through the MIR's debug-name table, the slice through the source text",
   replay=("conn_loss_probe_size_native", lambda m: [dict(x=0)]))
+
+
+# ------------------------------------------------------------------ C07 / C12: what poll_transmit checks before it starts another datagram (slice)
+def gate_post(c, p):
+    st = p.p.state
+    if p.p.outcome != "stop" or not (p.p.detail or "").endswith("line %d" % c.slice["ends"][0][1]):
+        return "true"                       # the slice was left through `break` / `continue`: no datagram is started here
+    dbg = c.fn.debug
+    try:
+        seg, numd, ack_el = dbg["segment_size"][0], dbg["num_datagrams"][0], dbg["ack_eliciting"][0]
+    except (KeyError, IndexError):
+        return "false"
+    segv, numv, ackv = c.inp(seg, BV64), c.inp(numd, BV64), c.inp(ack_el, BOOL)
+    maxv = c.inp("_3", BV64)                # max_datagrams argument
+    calls = st.calls
+    conj = [ult(numv, maxv)]
+    # anti-amplification: consulted with everything already built in this call plus one byte, and it said "not blocked"
+    aa = [x for x in calls if re.search(r"anti_amplification_blocked$", x[0])]
+    if len(aa) != 1 or aa[0][1][1][0] != "val":
+        return "false"
+    res = aa[0][2] if str(aa[0][2]).startswith("|") else c.ex.read_key(st, aa[0][2], BOOL).t
+    conj.append(not_(res))
+    conj.append(eq(aa[0][1][1][1].t, "(bvadd (bvmul %s %s) %s)" % (segv, numv, bv(1))))
+    # congestion control: an ack-eliciting packet that is not a loss probe needs room for a full segment in the window
+    win = [x for x in calls if re.search(r"Controller>::window$", x[0])]
+    lp = [x for x in calls if re.search(r"Index.*SpaceId.*::index", x[0])]
+    infl = "*_1.%d.%d.0" % (c.field("connection/mod.rs", "Connection", "path"), _pd(c, "in_flight"))
+    if win:
+        w = win[0][2] if str(win[0][2]).startswith("|") else c.ex.read_key(st, win[0][2], BV64).t
+        snap = _Snap(st, win[0][3]) if win[0][3] is not None else st
+        inflight = c.ex.read_key(snap, infl, BV64).t
+        conj.append(ult("(bvadd %s %s)" % (zext(inflight, 64), zext(segv, 64)), zext(w, 64)))
+        pd = [x for x in calls if re.search(r"Pacer::delay$", x[0])]
+        if len(pd) != 1:
+            return "false"
+        conj.append(eq(c.ex.read_key(st, pd[0][2] + "#discr", I64).t, bv(0)))       # pacing: no delay required
+    else:
+        conj.append("ESCAPE")
+    return conj
+
+
+def gate_post_wrap(c, p):
+    r = gate_post(c, p)
+    if isinstance(r, str):
+        return r
+    st = p.p.state
+    dbg = c.fn.debug
+    ackv = c.inp(dbg["ack_eliciting"][0], BOOL)
+    if "ESCAPE" in r:
+        r = [x for x in r if x != "ESCAPE"]
+        # skipped only for packets that are not ack-eliciting or for loss probes; the loss-probe count read is opaque,
+        # so what is decided is: if the packet is ack-eliciting, the count was read and was non-zero
+        lp = [x for x in st.calls if re.search(r"Index<SpaceId>>::index$", x[0])]
+        cond = "false"
+        for k in [k for k in c.ex.decls if ".%d|" % c.field("connection/spaces.rs", "PacketSpace", "loss_probes") in k and k.startswith("|in:*call:")]:
+            cond = or_(cond, not_(eq(k, bv(0, 32))))
+        r.append(or_(not_(ackv), cond))
+    return and_(*r)
+
+
+Q(name="e2_poll_transmit_new_datagram_gate_slice", props=["C07", "C12"], func=r"connection/mod\.rs:245:1[^>]*>::poll_transmit$",
+  src="connection/mod.rs", within=r"^    pub fn poll_transmit\(", start_line=r"if num_datagrams >= max_datagrams \{", end_line=[r"if let Some\(mut builder\) = builder_storage\.take\(\) \{", r"(?#loophead)while space_idx < spaces\.len\(\) \{", r"if let Some\(mut builder\) = builder_storage \{"],
+  pure=[r"anti_amplification_blocked$", r"Controller>::window$", r"Index<SpaceId>>::index$", r"RttEstimator::get$", r"current_mtu$"],
+  check_stop=True, allowed_panics=r".", ignore_untranslatable=r"^loop at",
+  functions=["Connection::poll_transmit (slice: the checks between 'one more datagram is needed' and starting it)"],
+  pre=lambda c: and_(ule(c.inp(c.fn.debug["segment_size"][0], BV64), bv(65535)), ule(c.inp(c.fn.debug["num_datagrams"][0], BV64), bv(1 << 20))), post=gate_post_wrap, timeout=600,
+  bounds="from an arbitrary state with segment_size <= 65535 and num_datagrams <= 2^20 (keeps the product cheap for the solver): the code that starts another datagram is reached only if fewer than max_datagrams exist, PathData::anti_amplification_blocked - asked about segment_size * num_datagrams + 1 bytes - said no, and, unless the packet is not ack-eliciting or is a loss probe, bytes in flight + one segment is below the congestion window and the pacer demands no delay; locals through the debug-name table, slice through the source text",
+  replay=("conn_poll_transmit_gates_native", lambda m: [dict(mode=k) for k in (0, 1, 2)]))
+
+
+# ------------------------------------------------------------------ C07: MTU probes are datagrams too - none is built for a path that is not validated (slice)
+def mp_post(c, p):
+    st = p.p.state
+    pb = p.called(r"PacketBuilder::new$")
+    if not pb:
+        return "true"
+    validated = c.inp("*_1.%d.%d" % (c.field("connection/mod.rs", "Connection", "path"), _pd(c, "validated")), BOOL)
+    aa = [x for x in st.calls if re.search(r"anti_amplification_blocked$", x[0])]
+    if aa:
+        res = aa[0][2] if str(aa[0][2]).startswith("|") else c.ex.read_key(st, aa[0][2], BOOL).t
+        return or_(validated, not_(res))
+    # the probe (a full-size datagram that the budget check of the main loop never saw) goes to a validated address only
+    return validated
+
+
+Q(name="e2_poll_transmit_mtu_probe_gate_slice", props=["C07"], func=r"connection/mod\.rs:245:1[^>]*>::poll_transmit$",
+  src="connection/mod.rs", within=r"^    pub fn poll_transmit\(", start_line=r"if buf\.is_empty\(\) && self\.state\.is_established\(\)", end_line=r"self\.stats\.path\.sent_plpmtud_probes \+= 1;",
+  pure=[r"anti_amplification_blocked$"], inline=[r"State::is_established$"], check_stop=True, allowed_panics=r".", ignore_untranslatable=r"^loop at",
+  functions=["Connection::poll_transmit (slice: the MTU probe section after the main loop)"], pre=lambda c: "true", post=mp_post,
+  bounds="from an arbitrary state: a packet builder for an MTU probe is created only if the path is validated (or an anti-amplification check covering the probe said it is not blocked); the main loop's budget check does not cover this datagram; slice located through the source text",
+  replay=("conn_poll_transmit_gates_native", lambda m: [dict(mode=0)]))
